@@ -51,9 +51,18 @@ def check(run, tier):
         run.mc("MC_Twin", "MC_Twin_config_d6", timeout=3000)
     r = rng("C06")
     run_calls(run, grid(tier, r), nontrivial=lambda rec: rec["v"] > rec["M"])
+    # volumes a hair above / below a multiple of max_volume (C06.rawcount, C06.rawbounded, C06.rawsum)
+    raw = [{"x": "rawsplit", "m": m, "k": k, "sign": sign, "exp": e, "mint": mint}
+           for m in ([950, 1], [200, 1], [401, 2], [7, 10], [1000, 1], [19, 2])
+           for k in ((1, 2, 3, 7) if q else range(1, 13))
+           for sign in (1, -1)
+           for e in (-12, -11, -10, -9, -8, -6)
+           for mint in (False, True)]
+    run_calls(run, raw, nontrivial=lambda rec: rec["want"] > 1)
     progs = []
     for dev in ("evo", "fluent"):
         progs += targeted.split_programs(dev)
+        progs += targeted.thirddecimal_limit_programs(dev)
         progs += [p for p in emitters.targeted_programs(dev) if "multidisp" in p["id"]]
     n = 80 if q else 2000
     for i in range(n):
